@@ -554,6 +554,9 @@ Definition fstep (c : cfg) (t : N) (th : thread) (fr : frame) (rest : list frame
     match ps with
     | [] => ok_s c t th rest None
     | p :: ps' =>
+      (* the order in which mi_heap_visit_pages meets the pages (bin by bin, queue order) is not fixed by the
+         model: alt = another page first *)
+      if alt then ok_s c t th (HC3 h force (ps' ++ [p]) :: rest) None else
       let pg := getp c p in
       if own pg t && oN_eqb (pg_heap pg) (Some h)
       then ok_s c t th (FC1 p force :: HC4 h force p ps' :: rest) None
@@ -570,6 +573,9 @@ Definition fstep (c : cfg) (t : N) (th : thread) (fr : frame) (rest : list frame
     match ps with
     | [] => ok_s c t th (DP1 h :: DA h :: HD4 h :: rest) None
     | p :: ps' =>
+      (* the order of the 75 queue appends of mi_heap_absorb (bin by bin, queue order) is not fixed by the
+         model: alt = another page first *)
+      if alt then ok_s c t th (HD3 h bk (ps' ++ [p]) :: rest) None else
       let pg := getp c p in
       if negb (own pg t) then RErr E_NOT_OWNER else
       let pg' := pg_set_heap pg (Some bk) in
